@@ -472,6 +472,16 @@ def continuous():
                 [['call', 'A', 'reset'], settle()] + en + [['call', 'A', 'run'], settle(0.6), ['sample'], ['answer_open'], settle(0.3),
                  ['child', 'return'], settle(0.4)] + en + [['sample']]
             out.append(S(steps, dict(family='continuous', case=f'overlapping-requests:{api2}:k{k}'), config={'answer': None}))
+    # a request CANCELLED while it waits for the lifecycle lock (held by a reset suspended in a hook / by a plain run that is
+    # starting): no run was started by it, so the flag must be off afterwards, and off again after a later
+    # non-interactive run has finished (seed C16-6)
+    for api in ('run_and_continue', 'run_continue_and_wait'):
+        for holder in ('reset', 'run'):
+            pre = [['hold', 'reset'], ['call', 'A', 'reset'], settle(0.3)] if holder == 'reset' else [['hold', 'on_start_run'], ['call', 'A', 'run'], settle(0.4)]
+            post = [] if holder == 'reset' else [['answer_open'], settle(0.3), ['child', 'return'], settle(0.5), ['child_reset'], ['call', 'A', 'reset'], settle()]
+            steps = START + pre + [['call', 'B', api], settle(0.2)] + en + [['cancel_task', 'B'], settle(0.3)] + en + [['release_all'], settle(0.5)] + en + post + en + \
+                [['call', 'C', 'run_continue_and_wait'], settle(0.4)] + en + [['child', 'return'], ['await', 'C', 25.0], settle()] + en + [['sample']]
+            out.append(S(steps, dict(family='continuous', case=f'request-cancelled-waiting-for-lock:{api}:{holder}', expect_complete=False), config={'answer': None}))
     # a continuous run in progress, a close waiting for it, and one more request pending behind the close:
     # the request is refused after the object is closed; the flag must be off then
     for api in ('run_and_continue', 'run_continue_and_wait'):
